@@ -124,9 +124,42 @@ fn expand_ok(r: &mut Report, input: &str, attr: &str, item: &str) -> Option<Expa
 
 // ------------------------------------------------------------------------------------------- fn / mod inputs
 
+/// C03 / C04 / C07: the bounds of a named dependency parameter `D` move to the implementation header, however many
+/// where-predicates declare them and wherever they stand among the others; nothing generated may still name `D`
+/// (the first output item is the input itself)
+const DEPS_PREDICATE_FNS: [&str; 6] = [
+    "fn f<D>(deps: &D) where D: A, D: B {}",
+    "fn f<D>(deps: &D) where D: A, D: B, D: C {}",
+    "fn f<D, T>(deps: &D, t: T) where T: Clone, D: A, T: Copy, D: B {}",
+    "fn f<D, T>(deps: &D, t: T) where D: A, T: Clone, D: B {}",
+    "fn f<'x, D>(deps: &'x D, s: &'x str) -> &'x str where D: A, D: B { s }",
+    "async fn f<D>(deps: &D, x: u8) -> u8 where D: A, D: B + Sync, u8: Copy { x }",
+];
+fn deps_predicates_removed(r: &mut Report, attr: &str, item: &str) {
+    let input = format!("#[entrait({})] {}", attr, item);
+    r.guarded(&input, |r| {
+        let Some(x) = expand_ok(r, &input, attr, item) else { return };
+        for it in x.file.items.iter().skip(1) {
+            if mentions_ident(it.to_token_stream(), "D") {
+                let what = match it {
+                    syn::Item::Trait(_) => "trait",
+                    _ => "impl",
+                };
+                r.fail("deps-predicate-kept", &input, format!("the generated {} still names the removed dependency parameter `D`: `{}`", what, tt_string(it)));
+            }
+        }
+    });
+}
+
 fn sig_corners(_ctx: &Ctx, r: &mut Report) {
     r.domain = "fn / mod inputs from the C03 / C04 / C05 classes that earlier contracts had not enumerated: elided borrows under no_deps, function lifetimes inside bounds and where-predicates, generics that cannot be inferred from the arguments, the dependency generic used a second time, relaxed bounds, concrete dependencies by value".into();
     r.bound = "fixed catalogue (listed in the contract source)".into();
+
+    // --- C03 / C04: several where-predicates on the dependency parameter (fn and module inputs)
+    for f in DEPS_PREDICATE_FNS {
+        deps_predicates_removed(r, "Tr", f);
+        deps_predicates_removed(r, "Tr", &format!("mod m {{ pub {} pub fn g(deps: &impl A) {{}} }}", f));
+    }
 
     // --- C03: a borrowed return under `no_deps` (elision must not re-bind to the inserted `&self`)
     for item in ["fn f(a: &str) -> &str { a }", "async fn f(a: &str) -> &str { a }", "fn f(a: &str, n: u8) -> std::str::Chars<'_> { a.chars() }", "fn f<'x>(a: &'x str) -> &'x str { a }", "fn f(a: &str) -> usize { a.len() }"] {
@@ -452,6 +485,13 @@ fn sig_corners(_ctx: &Ctx, r: &mut Report) {
 fn trait_corners(_ctx: &Ctx, r: &mut Report) {
     r.domain = "trait and impl-block inputs from the C06 / C07 / C09 / C19 classes that earlier contracts had not enumerated: lifetime and defaulted trait parameters, generic methods, method names that collide with the forwarding path, receiver elision under static selection, generic methods in impl blocks".into();
     r.bound = "fixed catalogue (listed in the contract source)".into();
+
+    // --- C07: several where-predicates on the dependency parameter of a function in an impl block
+    for f in DEPS_PREDICATE_FNS {
+        for attr in ["", "ref"] {
+            deps_predicates_removed(r, attr, &format!("impl TrImpl for X {{ {} }}", f));
+        }
+    }
 
     // --- C06 / C09: the impl header of a generic trait
     for item in ["trait Tr<'a> { fn f(&self, k: &str) -> Option<&'a str>; }", "trait Tr<T = i32> { fn f(&self) -> T; }", "trait Tr<const N: usize = 2> { fn f(&self) -> [u8; N]; }", "trait Tr<'a, T: 'a> { fn f(&self) -> &'a T; }", "trait Tr<T, const N: usize> { fn f(&self, t: T) -> [T; N]; }"] {
